@@ -43,6 +43,16 @@ func codecRawStrN(r *fw.Rng, n int) string {
 			b[i] = codecAlnum[r.Intn(len(codecAlnum))]
 		}
 	}
+	// blanks at either end and inside: a parser that trims more than the NUL padding loses them
+	if n > 0 && r.Chance(12) {
+		b[0] = ' '
+	}
+	if n > 1 && r.Chance(12) {
+		b[n-1] = ' '
+	}
+	if n > 2 && r.Chance(6) {
+		b[1+r.Intn(n-2)] = []byte{' ', '\t', '.', '-', '_'}[r.Intn(5)]
+	}
 	return string(b)
 }
 
